@@ -200,6 +200,17 @@ class IntrospectablePass(object):
                 if field.type:
                     if not self._type_is_introspectable(field.type):
                         field.introspectable = False
+        # A constant the typelib cannot hold: of a type that is not described,
+        # that has no type tag (long long) or that is a bare pointer
+        if isinstance(obj, ast.Constant):
+            value_type = obj.value_type
+            target = self._transformer.lookup_typenode(value_type)
+            while isinstance(target, ast.Alias):
+                value_type = target.target
+                target = self._transformer.lookup_typenode(value_type)
+            if (not self._type_is_introspectable(obj.value_type)
+            or value_type.is_equiv((ast.TYPE_ANY, ast.TYPE_NONE))):
+                obj.introspectable = False
         return True
 
     def _introspectable_callable_analysis(self, obj, stack):
